@@ -478,6 +478,14 @@ def _finfo(lib, run, recv, args, kw):
     return RecordV({'eps': Num(T.EPS)})
 
 
+@reg('record.get')
+def _record_get(lib, run, recv, args, kw):
+    k = args[0]
+    if isinstance(k, StrV) and k.s in recv.fields and recv.fields[k.s] is not None:
+        return recv.fields[k.s]
+    raise Unsupported('lookup in a constant table with a non-constant key')
+
+
 @reg('record.eps')
 def _eps(lib, run, recv, args, kw):
     raise Unsupported('eps call')
